@@ -43,7 +43,7 @@ NN_REPS = ("nn_dup", "nn_memalias", "nn_flat", "nn_nested", "nn_method_mixed", "
            "sib_multi_plainmid", "sib_multi_plainfirst")
 REPS = ("pure", "pure_nontensor", "pure_dup", "nn_dup", "nn_memalias", "em_memalias", "jit", "nn_flat", "nn_nested", "nn_method_mixed", "nn_tied",
         "em_flat", "em_container", "em_alias", "em_nn", "em_nn_reordered", "em_mixed",
-        "sib_single", "sib_single_nn", "sib_multi", "sib_multi_shared", "sib_multi_nn", "sib_multi_plainmid", "sib_multi_plainfirst")
+        "sib_single", "sib_single_nn", "sib_multi", "sib_multi_shared", "sib_multi_nn", "sib_multi_plainmid", "sib_multi_plainfirst", "dual_nn_em")
 
 
 _SCRIPTED = {}
@@ -200,6 +200,26 @@ def build(rep, core, nlead, eff, s):
                     return [prefix + "a", prefix + "b", prefix + "W"]
                 raise KeyError(methodname)
         e = E(a, b, W)
+        return Built(e.h, (), [("e", e)], ())
+
+    if rep == "dual_nn_em":
+        # a class that is BOTH a torch.nn.Module and an EditableModule: the tensors named by getparamnames count (registered Parameter or not,
+        # attribute or held in a container)
+        class D(torch.nn.Module, xitorch.EditableModule):
+            def __init__(self, a, b, W):
+                super().__init__()
+                self.a = a
+                self.held = {"b": b}
+                self.lst = [W]
+
+            def h(self, *lead):
+                return core(*lead, self.a, self.held["b"], self.lst[0], s)
+
+            def getparamnames(self, methodname, prefix=""):
+                if methodname == "h":
+                    return [prefix + "a", prefix + "held['b']", prefix + "lst[0]"]
+                raise KeyError(methodname)
+        e = D(a, b, W)
         return Built(e.h, (), [("e", e)], ())
 
     if rep == "em_container":
